@@ -38,10 +38,7 @@ def run(ctx):
 def reader_rules(ctx, R):
     # ---- M7: the property itself, on samples ----------------------------------------
     ctx.rule("M7", "assembler + readers interpreted over sample reply streams: the same result under every segmentation")
-    try:
-        mev = reader_eval(ctx, R, thorough=(ctx.tier == "thorough"))
-    except RecursionError:
-        mev = None
+    mev = m7_status(ctx, R)
     if mev is not None and mev[0] == "bad":
         ctx.violation("M7", R.assembler or R.line_reader, "model:segmentation", mev[1], node=(R.assembler or R.line_reader).node,
                       witness="the same server output, cut differently by the transport, is read differently")
@@ -64,6 +61,18 @@ def reader_rules(ctx, R):
     finally:
         if prev is not None:
             ctx.restore(prev)
+
+
+def m7_status(ctx, R):
+    """The result of the reader evaluation, computed once per run (rules of C09 / C15 that describe one way of writing the readers
+    consult it before they report)."""
+    if not hasattr(ctx, "_m7"):
+        try:
+            ctx._m7 = reader_eval(ctx, R, thorough=(ctx.tier == "thorough"))
+        except RecursionError:
+            ctx._m7 = None
+        ctx._m7_ok = bool(ctx._m7 is not None and ctx._m7[0] == "ok")
+    return ctx._m7
 
 
 def _reader_rules_structural(ctx, R):
@@ -879,8 +888,29 @@ STREAMS = [
     [b'"a"\r\nOK\r\n', b"OK\r\n"],                      # two replies back to back: the second must be untouched by the first
     [b"{6}\r\nab\r\ncd\r\nOK\r\n", b'"n"\r\nOK\r\n'],
     [b"NO {5}\r\nhello\r\n", b"OK\r\n"],
+    [b"OK (WARNINGS) {5}\r\nhello\r\n", b'"x"\r\nOK\r\n'],        # the text of an OK reply sent as a literal, then the next reply
+    [b'NO "Quota d\xc3\xa9pass\xc3\xa9"\r\n', b"OK\r\n"],
     [b'"caf\xc3\xa9"\r\n"\xe2\x82\xac" ACTIVE\r\nOK "\xc3\xa9t\xc3\xa9"\r\n'],   # multi-byte characters: a cut may fall inside one
     [b"{8}\r\n# \xc3\xa9\xc3\xa0\r\n\r\nOK\r\n"],
+]
+
+
+# what each reply of STREAMS says (code, text, content) - written from RFC 5804 and fixed here, so that a reader which mis-reads even
+# the unsegmented delivery is reported too
+EXPECTED = [
+    [(b"OK", None, b"")],
+    [(b"NO", b'(QUOTA/MAXSIZE) "too big"', b"")],
+    [(b"OK", b'"Listed"', b'"a"\r\n"b" ACTIVE\r\n')],
+    [(b"OK", None, b"keep;\r\nstop;\r\n")],
+    [(b"OK", None, b'abc\r\n"x"\r\n')],
+    [(b"NO", b"{5}", b"")],
+    [(b"OK", None, b'"a"\r\n'), (b"OK", None, b"")],
+    [(b"OK", None, b"ab\r\ncd\r\n"), (b"OK", None, b'"n"\r\n')],
+    [(b"NO", b"{5}", b""), (b"OK", None, b"")],
+    [(b"OK", b"(WARNINGS) {5}", b""), (b"OK", None, b'"x"\r\n')],
+    [(b"NO", b'"Quota d\xc3\xa9pass\xc3\xa9"', b""), (b"OK", None, b"")],
+    [(b"OK", b'"\xc3\xa9t\xc3\xa9"', b'"caf\xc3\xa9"\r\n"\xe2\x82\xac" ACTIVE\r\n')],
+    [(b"OK", None, b"# \xc3\xa9\xc3\xa0\r\n")],
 ]
 
 
@@ -1014,8 +1044,10 @@ def reader_eval(ctx, R, thorough=False):
             return None
         if ctx.__dict__.get("_debug_m7"):
             print("REF", whole, ref)
-        if any(r[0] == "raise" for r in ref if isinstance(r, tuple) and len(r) == 2 and r[0] == "raise"):
-            return None  # the one-segment delivery itself is not followed to a result: nothing to compare with
+        want = EXPECTED[STREAMS.index(stream)]
+        got_ref = [tuple(bytes(x) if isinstance(x, (bytes, bytearray)) else x for x in r[0]) if isinstance(r[0], tuple) else r for r in ref]
+        if got_ref != want:
+            return ("bad", "the reply stream %r, delivered in one segment, is read as %r; it says %r" % (whole, ref, want))
         L = len(whole)
         step = 1 if (thorough or L <= 24) else 2
         schedules = [[c] for c in range(1, L, step)] + [list(range(1, L))] + [[c, c + 1] for c in range(1, L - 1, 3)] + [[c, L - 2] for c in range(2, L - 3, 5)]
